@@ -506,6 +506,66 @@ def set_loop2_lemmas(I, frame, i, seq):
     return psum_step_axioms(I, seq.origin, i) + psum_base_axioms(I)
 
 
+def _same_but(t, t0, k, skip):
+    fs = [z3.Select(t.exists, k) == z3.Select(t0.exists, k)]
+    for c in t0.data:
+        if c in skip:
+            continue
+        fs.append(z3.Select(t.data[c], k) == z3.Select(t0.data[c], k))
+        if c in t0.null:
+            fs.append(z3.Select(t.null[c], k) == z3.Select(t0.null[c], k))
+    return z3.And(*fs)
+
+
+def rp_bumped(I, m, t0, k, idx=None, i=None):
+    """k is the id of a provider of the visited map (enumerated before i)"""
+    u = z3.Select(t0.data['uuid'], k)
+    v = z3.Select(m.val, u)
+    fs = [z3.Select(t0.exists, k), z3.Select(m.dom, u),
+          z3.Select(I.fld(RP, 'id'), v) == k]
+    if idx is not None:
+        fs.append(idx(u) < i)
+    return z3.And(*fs)
+
+
+def set_loop3_entry(I, frame, seq):
+    I.ghost['set.rp0'] = I.db.tables['resource_providers']
+    I.ghost['set.visited_rps'] = seq.origin
+
+
+def set_loop3_invariant(I, frame, i, seq):
+    """the providers enumerated so far carry generation + 1 (table and
+    object), every other row is as before"""
+    t0 = I.ghost['set.rp0']
+    t = I.db.tables['resource_providers']
+    m = seq.origin
+    k = z3.Int('k!sl3')
+    b = rp_bumped(I, m, t0, k, seq.idx, i)
+    return [ops.forall([k], z3.And(
+        _same_but(t, t0, k, ('generation',)),
+        z3.Select(t.data['generation'], k) ==
+        z3.Select(t0.data['generation'], k) + z3.If(b, 1, 0)),
+        patterns=[z3.Select(t.exists, k)])]
+
+
+def set_loop4_entry(I, frame, seq):
+    I.ghost['set.cons0'] = I.db.tables['consumers']
+    I.ghost['set.visited_consumers'] = seq.origin
+
+
+def set_loop4_invariant(I, frame, i, seq):
+    t0 = I.ghost['set.cons0']
+    t = I.db.tables['consumers']
+    m = seq.origin
+    k = z3.Int('k!sl4')
+    b = z3.And(z3.Select(t0.exists, k), z3.Select(m.dom, k), seq.idx(k) < i)
+    return [ops.forall([k], z3.And(
+        _same_but(t, t0, k, ('generation',)),
+        z3.Select(t.data['generation'], k) ==
+        z3.Select(t0.data['generation'], k) + z3.If(b, 1, 0)),
+        patterns=[z3.Select(t.exists, k)])]
+
+
 SET_HAVOC_TYPES = {
     (SQ, 'visited_consumers'): ('map', 'int', ('obj', CONSUMER)),
 }
@@ -520,10 +580,16 @@ SET_LOOPS = {
                       keep=('allocs', 'context', 'visited_rps'),
                       modifies_db=('allocations', 'aggregates'),
                       modifies_fields=(('Allocation', 'id'),)),
-    (SQ, 3): LoopSpec(name='C01.set.rpgen', keep=('allocs', 'context'),
+    (SQ, 3): LoopSpec(invariant=set_loop3_invariant, on_entry=set_loop3_entry,
+                      name='C01.set.rpgen',
+                      keep=('allocs', 'context', 'visited_rps',
+                            'visited_consumers'),
                       modifies_db=('resource_providers',),
                       modifies_fields=(('ResourceProvider', 'generation', 'keepnull'),)),
-    (SQ, 4): LoopSpec(name='C01.set.consgen', keep=('allocs', 'context'),
+    (SQ, 4): LoopSpec(invariant=set_loop4_invariant, on_entry=set_loop4_entry,
+                      name='C01.set.consgen',
+                      keep=('allocs', 'context', 'visited_rps',
+                            'visited_consumers'),
                       modifies_db=('consumers',),
                       modifies_fields=(('Consumer', 'generation', 'keepnull'),)),
 }
